@@ -17,6 +17,7 @@ import (
 	"verif/props/c12"
 	"verif/props/c13"
 	"verif/props/c14"
+	"verif/props/c15"
 	"verif/props/c18"
 	"verif/props/c19"
 )
@@ -38,6 +39,7 @@ func Registry() map[string]func() *mon.Spec {
 		"C12": c12.Spec,
 		"C13": c13.Spec,
 		"C14": c14.Spec,
+		"C15": c15.Spec,
 		"C18": c18.Spec,
 		"C19": c19.Spec,
 	}
